@@ -769,6 +769,26 @@ func (c *Ctx) flagMeansCodeOnLine(v ssa.Value, fn *ssa.Function, isLineOfComment
 		if !(sameLine && before) {
 			return false
 		}
+		// any node counts: a comment may trail the inner line of a multi-line expression (an element of a literal,
+		// an argument of a call), where no statement, declaration, spec or field starts or ends
+		var hasNodeAssert func(l Lit) bool
+		hasNodeAssert = func(l Lit) bool {
+			if v, t, _ := typeAssertOK(l); v != nil && strings.Contains(typeStr(t), "go/ast.") && c.roleOf(firstRoot(P, v), 0) == "node" {
+				return true
+			}
+			for _, sl := range l.Subs {
+				if hasNodeAssert(sl) {
+					return true
+				}
+			}
+			return false
+		}
+		if hasLit(g, hasNodeAssert) {
+			if c.once("any-node " + FuncName(fn)) {
+				c.fail("SCOPE/INLINE-ANY-NODE", FuncName(fn), P.Pos(st.Pos()), "only nodes of some syntactic classes count as code on the comment's line: a comment that trails an inner line of a multi-line expression (`Key: pkg.T{...}, // @ignore CODE`) is treated as stand-alone - the diagnostic on its line stays and the next element is suppressed instead")
+			}
+			return false
+		}
 		// the search visits the whole enclosing declaration (receiver, signature, body): the walk that sets the
 		// flag starts at an element of file.Decls, not at a part of it
 		if wf := st.Parent(); wf != fn && wf.Parent() != nil {
@@ -957,6 +977,31 @@ func (c *Ctx) ruleReportGate(onlyPkgs ...string) {
 			})
 		}
 		c.check(okP, "REPORT-GATE/GETPOS", tn, "", "GetPos returns the Pos field", "GetPos() does not return the violation's own Pos field")
+		// the reporter writes "[" GetCode() "] " in front of GetMessage(): the message text does not print the code
+		// once more (exactly one [CODE] per diagnostic)
+		if vt.GetMsg != nil && c.Prop == "C17" { // (a clause of C17 only: "exactly one code ... in the form [CODE]")
+			printsCode := ""
+			allInstrs(vt.GetMsg, func(b *ssa.BasicBlock, ins ssa.Instruction) {
+				r, ok := ins.(*ssa.Return)
+				if !ok || len(r.Results) != 1 {
+					return
+				}
+				for _, part := range c.printedParts(r.Results[0], 0) {
+					isCode := P.RootsAny(part, func(x ssa.Value) bool {
+						if fieldLoad(x, "", "Code") != nil {
+							return true
+						}
+						call, isCall := x.(*ssa.Call)
+						return isCall && (call.Call.StaticCallee() == vt.GetCode && vt.GetCode != nil || call.Call.IsInvoke() && call.Call.Method.Name() == "GetCode")
+					})
+					if isCode {
+						printsCode = P.Pos(r.Pos())
+					}
+				}
+			})
+			c.check(printsCode == "", "REPORT-GATE/CODE-ONCE", tn, printsCode, "the message text does not repeat the code the reporter prints in front of it",
+				"GetMessage() prints the violation's code itself; the reporter writes `[CODE] ` in front of every message, so the diagnostic shows `[CODE] [CODE] ...`")
+		}
 	}
 	// the code and the position a violation was created (and, for detection-time gates, looked up) with are the
 	// ones it is displayed with: they are written by the report site's composite literal only
@@ -1215,4 +1260,37 @@ func (c *Ctx) checkFormat(fn *ssa.Function) bool {
 		return okURL
 	}
 	return false
+}
+
+// printedParts: the values a string is put together from: operands of concatenations, the arguments of
+// fmt.Sprintf / Sprint / Sprintln, results of product helpers (through Resolve); leaves otherwise.
+func (c *Ctx) printedParts(v ssa.Value, depth int) []ssa.Value {
+	P := c.P
+	if depth > 6 {
+		return []ssa.Value{v}
+	}
+	var out []ssa.Value
+	for _, r := range P.Resolve(v) {
+		switch x := r.(type) {
+		case *ssa.BinOp:
+			if x.Op == token.ADD {
+				out = append(out, c.printedParts(x.X, depth+1)...)
+				out = append(out, c.printedParts(x.Y, depth+1)...)
+				continue
+			}
+		case *ssa.Call:
+			n := P.calleeName(x.Common())
+			if n == "fmt.Sprintf" || n == "fmt.Sprint" || n == "fmt.Sprintln" {
+				for _, a := range variadicValues(x) {
+					out = append(out, c.printedParts(a, depth+1)...)
+				}
+				continue
+			}
+		case *ssa.MakeInterface:
+			out = append(out, c.printedParts(x.X, depth+1)...)
+			continue
+		}
+		out = append(out, r)
+	}
+	return out
 }
